@@ -75,12 +75,24 @@ impl Base {
     /// (0 affine, 1 as computed by Point::g_mul, 2 Z = 2, 3 pseudo-random Z, 4 Z with Montgomery limbs [1,0,0,0])
     fn lib_master(&self, m: &Master) -> Sm9EncMasterKey {
         let mut l = m.lib;
-        l.ppube = g1_in_rep(&m.ppube, Some(&m.ke), self.ke_rel >> 4, self.id_seed ^ self.msg_seed);
+        l.ppube = g1_in_rep(&m.ppube, Some(&m.ke), (self.ke_rel >> 4) & 7, self.id_seed ^ self.msg_seed);
+        l
+    }
+    /// what a *sender* holds: the public parameters only — the same object with ke replaced by a placeholder when bit 7 of `ke_rel` is set
+    fn lib_sender(&self, m: &Master) -> Sm9EncMasterKey {
+        let mut l = self.lib_master(m);
+        if self.ke_rel & 0x80 != 0 {
+            l.ke = match self.msg_seed % 3 {
+                0 => [0, 0, 0, 0],
+                1 => [1, 0, 0, 0],
+                _ => to_limbs(&(from_be(&expand_bytes(self.msg_seed ^ 0x9c, 32)) % &r9::params().n)),
+            };
+        }
         l
     }
     /// the user's decryption key in a representation derived from the same selector (0/1: as extracted by the library)
     fn lib_user_key(&self, key: gm_sm9::key::Sm9EncKey, de_ref: &Pt<crate::refimpl::field::Fp2>) -> gm_sm9::key::Sm9EncKey {
-        match self.ke_rel >> 4 {
+        match (self.ke_rel >> 4) & 7 {
             0 | 1 => key,
             k => gm_sm9::key::Sm9EncKey { de: g2_in_rep(de_ref, None, k, self.id_seed ^ 0xde), ..key },
         }
@@ -103,7 +115,8 @@ fn check_encrypt(b: &Base) -> CaseResult {
     let Some(de_ref) = r9::enc_key(&m.ke, &id) else { return pass(false, "extraction-undefined") };
     let r2 = from_be(&expand_bytes(b.msg_seed ^ 0x1005, 32)) % (n - 2u32) + 1u32;
     let libm = b.lib_master(&m);
-    let (res, left) = with_sm9_candidates(vec![to32(&r), to32(&r2)], || libm.encrypt(&id, &msg));
+    let sender = b.lib_sender(&m);
+    let (res, left) = with_sm9_candidates(vec![to32(&r), to32(&r2)], || sender.encrypt(&id, &msg));
     let ct = match res {
         Ok(v) => v,
         Err(p) => return fail(format!("entry=Sm9EncMasterKey::encrypt input=valid outcome=panic site={}", panic_site(&p)), p),
@@ -335,7 +348,7 @@ fn base_strategy() -> impl Strategy<Value = Base> {
         any::<u64>(),
         gen::scalar256(&n),
     )
-        .prop_map(|(ke, id_len, id_seed, msg_len, msg_seed, r)| Base { ke, ke_rel: ((msg_seed % 5) as u8) << 4, id_len, id_seed, msg_len, msg_seed, r })
+        .prop_map(|(ke, id_len, id_seed, msg_len, msg_seed, r)| Base { ke, ke_rel: ((msg_seed % 5) as u8) << 4 | (((msg_seed >> 8) & 1) as u8) << 7, id_len, id_seed, msg_len, msg_seed, r })
 }
 
 pub fn tamper_strategy() -> impl Strategy<Value = Tamper> {
@@ -368,7 +381,7 @@ fn fixed_bases(seed: u64, count: usize) -> Vec<Base> {
 
 pub fn run(ctx: &Ctx) {
     ctx.set_rule(
-        "encryption cases are (ke, representation of Ppub-e and of the user key de: affine / as computed by the library / Z = 2 / random Z / Z with Montgomery limbs [1,0,0,0], identity, message of 1..255 bytes, r): every message length 1..=255 with r injected through the RNG hook, plus generated master keys / identities; tampering cases are (reference-made ciphertext, tampering): \
+        "encryption cases are (ke — for half of the cases the encrypting object carries a placeholder instead of ke: a sender knows only Ppub-e —, representation of Ppub-e and of the user key de: affine / as computed by the library / Z = 2 / random Z / Z with Montgomery limbs [1,0,0,0], identity, message of 1..255 bytes, r): every message length 1..=255 with r injected through the RNG hook, plus generated master keys / identities; tampering cases are (reference-made ciphertext, tampering): \
          every single-bit flip incl. the prefix byte (sampled in the quick tier, all in the thorough tier), every truncation length, extensions (also beyond 97+255 bytes), another identity, C1 nudged off the curve, C1 replaced by an off-curve point with \
          C3/C2 forged from the library's own pairing value on that non-point (the invalid-curve forgery), every other prefix byte, the x+p alias of C1, multi-byte alterations of C3 / C2 / C1.x that preserve the xor, the sum or the multiset of the bytes or words (a folded or partial MAC comparison accepts them), wholesale replacements of C3. Oracles: exact equality with the reference encryptor (C1 || C3 || C2, MAC(K2, C2) = SM3(C2 || K2), \
          K = KDF(C1 || w || ID, |M| + 32)); independent decryption; round trip; reference-made and Annex ciphertexts decrypt, also with C1 a boundary point of G1; for tamperings the reference decryptor decides, a panic is a violation. Non-trivial: fixed-r comparison, or a rejected tampering.",
@@ -392,7 +405,7 @@ pub fn run(ctx: &Ctx) {
 
     let seed = ctx.seed;
     ctx.exhaustive("message_lengths_1_255", "every message length 1..=255 with r injected: exact ciphertext, independent decryption, round trip", move || {
-        (1..=255usize).map(|l| Base { ke: gen::hex32(&BigUint::from(0x1234_5678u64)), ke_rel: ((l % 5) as u8) << 4, id_len: 1 + l % 11, id_seed: seed ^ l as u64, msg_len: l, msg_seed: seed.wrapping_mul(17) ^ l as u64, r: Hex(expand_bytes(seed ^ 0x1010 ^ l as u64, 32)) }).collect()
+        (1..=255usize).map(|l| Base { ke: gen::hex32(&BigUint::from(0x1234_5678u64)), ke_rel: ((l % 5) as u8) << 4 | ((l / 5 % 2) as u8) << 7, id_len: 1 + l % 11, id_seed: seed ^ l as u64, msg_len: l, msg_seed: seed.wrapping_mul(17) ^ l as u64, r: Hex(expand_bytes(seed ^ 0x1010 ^ l as u64, 32)) }).collect()
     }, check_encrypt);
     let nrel = ctx.tier.pick(6u64, 40u64);
     ctx.listed("master_key_related_to_h1", "master keys crafted from the identity: ke = H1(ID||03) (Q_B becomes a doubling), ke = 2*H1, ke = H1 - 1: exact ciphertext and round trip; reference ciphertext decrypts", move || {
